@@ -446,10 +446,12 @@ theorem unbindURIAttr_kind (c : Str) (v : Value) (h : unbindURIAttr c = some v) 
   · cases h; simp
   · split at h
     · cases h; simp
-    · simp only at h
-      split at h
+    · split at h
       · cases h
-      · cases h; simp
+      · simp only at h
+        split at h
+        · cases h
+        · cases h; simp
 
 theorem uriPacked_length (ps : List Str) (as : List Nat) (w w' : WFN) (h : uriPacked ps as w = some w') :
     w'.length = w.length := by
